@@ -97,7 +97,8 @@ Keychain(w, tok) ==
   IF ~w.inst THEN "err:closed"                                            \* KeychainDoesntExist
   ELSE LET k == IF tok[1] THEN Xor(w.kc, tok[2]) ELSE w.kc IN             \* k_masked.mask_master_key(m)
        IF Checksum(k) = w.chk THEN "ok" ELSE "err:mask"                   \* InvalidKeychainMask
-TokenValid(w, tok) == Keychain([w EXCEPT !.inst = TRUE], tok) = "ok"
+\* "the right token" = the one the last open_wallet returned (none for an unmasked wallet)
+IsRight(w, tok) == tok = Tok(w, "right")
 
 \* ----------------------------------------------------------------- methods
 \* every pub fn of impl Owner (api/src/owner.rs) except new(); variants split a method by the
